@@ -590,6 +590,23 @@ func gen(a Args, out *Out) {
 		out.Count("parked-on-output-scenarios")
 	}
 
+	// 12. shutdown, the worker's fourth input (see drv.ShutdownCase): Shutdown() on a quiet
+	// scheduler, under API calls from client goroutines, and with the worker parked on its
+	// output while callers sit in the sends on the full request channels; API calls after
+	// it.  Nothing may panic, every call and Shutdown itself come back, and the bookkeeping
+	// stays consistent (Size / IsScheduled / Cancel agree).
+	for _, impl := range []int64{drv.ImplShutWheel, drv.ImplShutHeap} {
+		for v := int64(0); v < 4; v++ {
+			in := List(Int(impl), Int(v), Int(0), List())
+			kind := "shutdown"
+			if v >= 2 {
+				kind = "shutdown-blocked-callers"
+			}
+			out.Case(kind, true, in, drv.Run(in))
+			out.Count("shutdown-scenarios")
+		}
+	}
+
 	// id reuse: a timer is cancelled but its node is still around — linked in the structure
 	// with the cancel request not yet served, or still in the start queue — when the id
 	// counter wraps and hands the SAME id to a new timer.  The old node must not pass for
